@@ -20,7 +20,9 @@ from vlib.worker import REPO, Worker, guarded, short
 
 RULE = ('histories of 2-5 interpreter runs over one package source tree, each run under a hook configuration from '
         '{off, default, claw_is_pep526=False, each decorator placement for functions and for types, custom violation '
-        'exception, custom violation warning}, with optional source edits between runs; after every run the behaviour '
+        'exception, custom violation warning, strategies, tower, and the full product of the three AST-shaping options '
+        'with a fourth, non-shaping one (none / is_pep557_fields / strategy O0)}, consecutive runs often one option '
+        'apart or of the same AST shape, with optional source edits between runs; after every run the behaviour '
         'report of the package self-test must equal the report of the same (configuration, source) on an empty cache, '
         'and every .pyc written must be "transformed iff marked"; plus single runs in which 2-8 threads import hooked '
         'and unhooked packages concurrently with delays injected inside BeartypeSourceFileLoader.get_code; distinct by '
